@@ -47,6 +47,8 @@ SCALARS = {
     "union-models": {"oneOf": [{"$ref": "#/components/schemas/Leaf"}, {"$ref": "#/components/schemas/Leaf2"}]},
     "union-date-int": {"oneOf": [{"type": "string", "format": "date"}, {"type": "integer"}]},
     "typelist": {"type": ["string", "integer", "null"]},
+    "nullable-composed": {"type": ["object", "null"], "allOf": [{"$ref": "#/components/schemas/Base"},
+                                                                {"type": "object", "properties": {"c-two": {"type": "string"}}}]},
     "union-consts": {"oneOf": [{"const": "asc"}, {"const": "desc"}, {"const": "natural"}]},
     "union-int-const": {"anyOf": [{"type": "integer"}, {"const": "x"}]},
     "union-const-model": {"oneOf": [{"const": "none"}, {"$ref": "#/components/schemas/Leaf"}]},
